@@ -5,6 +5,10 @@ import json, sys
 ALL = ["C%02d" % i for i in range(1, 21)]
 
 CHECKS = {
+ "C08": dict(level="exploration", design="§3 C08, §0.2 I-points",
+   technique="exhaustive enumeration of three input families (all token words up to a length, full single-mutation balls around every corpus document, structured binary variations) and of a nil-lattice of the public types, executed on the real readers/writers in the instrumented build under recover() and a deterministic statement-level step budget (no wall-clock oracle)",
+   text="Every member of each enumerated family is fed to the reader of its format (also across formats and through the opener); every lattice point within the deviation bound is written by all five writers. A panic or exceeding 50000+400*len steps in package astisub is a violation; the linear bound is additionally exercised on inputs of 2^k cues. Complete enumeration of the stated families; 'every byte sequence' beyond them is not claimed.",
+   note="Trusted: Go toolchain/stdlib, dependencies' own loops (not step-counted), the instrumenter (validated in setup). A worker killed by a Go fatal error is reported as a violation."),
  "C19": dict(level="model_checking", design="§3 C19, §0.2 I-maprange",
    technique="stateless model checking with map iteration order as an explorer-owned environment choice (instrumented build: all permutations at every map-range site a writer executes), plus plain-build repetition in-process and across processes, deep purity snapshots, all 120 writer orders, two injectable clocks",
    text="For every cue list in scope (all multisets of <=4 styles over 6 heterogeneous profiles x region multisets) and every writer, every permutation at every map walk of package astisub is executed and the bytes compared with the sorted-order bytes; the input list is snapshotted deeply (aliasing, len/cap, spare capacity) before/after each write; all writer orders; STL dates vs two clocks.",
